@@ -132,7 +132,7 @@ impl<'a> Selector<'a> {
         let start_pos = if let Some(Path::Current) = paths.first() {
             current.expect("missing current position").clone()
         } else {
-            Position::Container((0, root.len()))
+            Self::root_position(root)?
         };
         poses.push_back(start_pos);
 
@@ -171,6 +171,18 @@ impl<'a> Selector<'a> {
             }
         }
         Ok(poses)
+    }
+
+    // The root value can be a scalar wrapped in a scalar container header,
+    // it must be handled as a scalar, otherwise the header is copied as a nested container.
+    fn root_position(root: &[u8]) -> Result<Position, Error> {
+        let (rest, (ty, _)) = decode_header(root)?;
+        if ty == SCALAR_CONTAINER_TAG {
+            let (_, (jty, jlength)) = decode_jentry(rest)?;
+            Ok(Position::Scalar((jty, 8, jlength)))
+        } else {
+            Ok(Position::Container((0, root.len())))
+        }
     }
 
     fn select_path(
@@ -521,7 +533,7 @@ impl<'a> Selector<'a> {
                 if let Some(Path::Current) = paths.first() {
                     poses.push_back(pos.clone());
                 } else {
-                    poses.push_back(Position::Container((0, root.len())));
+                    poses.push_back(Self::root_position(root)?);
                 }
 
                 for path in paths.iter().skip(1) {
@@ -551,20 +563,7 @@ impl<'a> Selector<'a> {
                 }
                 let mut values = Vec::with_capacity(poses.len());
                 while let Some(pos) = poses.pop_front() {
-                    let scalar = match pos {
-                        Position::Scalar(scalar) => Some(scalar),
-                        // the root value can be a scalar wrapped in a scalar container header.
-                        Position::Container((offset, _)) => {
-                            let (rest, (ty, _)) = decode_header(&root[offset..])?;
-                            if ty == SCALAR_CONTAINER_TAG {
-                                let (_, (jty, jlength)) = decode_jentry(rest)?;
-                                Some((jty, offset + 8, jlength))
-                            } else {
-                                None
-                            }
-                        }
-                    };
-                    if let Some((ty, offset, length)) = scalar {
+                    if let Position::Scalar((ty, offset, length)) = pos {
                         let value = match ty {
                             NULL_TAG => PathValue::Null,
                             TRUE_TAG => PathValue::Boolean(true),
